@@ -53,6 +53,19 @@ impl Nd {
         }
     }
 
+    /// Unbiased pseudo-random word (native smoke mode only).
+    #[cfg(not(kani))]
+    fn raw(&mut self) -> u64 {
+        self.drawn += 1;
+        let state = self.rng.as_mut().expect("smoke mode");
+        let mut x = *state;
+        x ^= x << 13;
+        x ^= x >> 7;
+        x ^= x << 17;
+        *state = x;
+        x.wrapping_mul(0x2545F4914F6CDD1D) >> 16
+    }
+
     #[cfg(not(kani))]
     fn next_bytes<const N: usize>(&mut self) -> [u8; N] {
         self.drawn += 1;
@@ -209,6 +222,30 @@ impl Nd {
                 'x'
             }
         }
+    }
+
+    /// A byte in `lo..=hi`. (Native smoke mode maps its draw into the range instead of rejecting.)
+    pub fn byte_in(&mut self, lo: u8, hi: u8) -> u8 {
+        #[cfg(not(kani))]
+        if self.rng.is_some() {
+            let span = (hi - lo) as u64 + 1;
+            return lo + (self.raw() % span) as u8;
+        }
+        let v = self.u8();
+        self.assume(v >= lo && v <= hi);
+        v
+    }
+
+    /// An ASCII letter or digit.
+    pub fn alnum(&mut self) -> u8 {
+        #[cfg(not(kani))]
+        if self.rng.is_some() {
+            const A: &[u8] = b"abcXYZ0189qz";
+            return A[(self.raw() as usize) % A.len()];
+        }
+        let v = self.u8();
+        self.assume(v.is_ascii_alphanumeric());
+        v
     }
 
     /// An ASCII byte (< 0x80).
